@@ -260,9 +260,16 @@ impl G<'_> {
     fn default_type(&mut self, k: K) -> IrType {
         match k {
             K::Bool => IrType::Bool,
-            K::Bytes => IrType::Bytes(bytes_len_class(self.rng)),
+            K::Bytes => {
+                let n = bytes_len_class(self.rng);
+                // Bytes(0) / BigUint(0) loads are known panics: leaves and `risky` programs only
+                IrType::Bytes(if n == 0 && !self.risky { 2 } else { n })
+            }
             K::Native => IrType::Native,
-            K::Big => IrType::BigUint(big_width_class(self.rng).min(if self.theme == Theme::Big { 1024 } else { 256 })),
+            K::Big => {
+                let w = big_width_class(self.rng).min(if self.theme == Theme::Big { 1024 } else { 256 });
+                IrType::BigUint(if w == 0 && !self.risky { 3 } else { w })
+            }
             K::Point => IrType::JubjubPoint,
             K::Scalar => IrType::JubjubScalar,
         }
@@ -692,7 +699,7 @@ impl G<'_> {
                             need - 1
                         } else {
                             let c = [need, need + 1, 31, 32, 32, need.max(1), if self.risky { 33 } else { 32 }, if self.risky { 0 } else { need }];
-                            c[self.rng.gen_range(0..c.len())].max(need).min(if self.risky { 40 } else { 32 })
+                            c[self.rng.gen_range(0..c.len())].max(need).max(if self.risky { 0 } else { 1 }).min(if self.risky { 40 } else { 32 })
                         }
                     }
                     _ => {
